@@ -106,6 +106,10 @@ def plan(tier):
             shards.append({"kind": "hyp", "name": f"bindhyp{i}", "examples": 2500, "gen": "bind"})
         for i in range(64):
             shards.append({"kind": "hyp", "name": f"prog{i}", "examples": 1300, "gen": "prog"})
+        # coverage-guided (cv/harness/fuzz.py): libFuzzer bytes decoded by the same strategies, coverage of cohdl's tracer
+        for i in range(8):
+            shards.append({"kind": "fuzz", "name": f"fuzz{'prog' if i % 4 else 'bind'}{i}", "runs": 30000, "max_len": 4096,
+                           "gen": "prog" if i % 4 else "bind"})
     return shards
 
 
